@@ -16,6 +16,7 @@
 //
 // Trace line:  OP ; OUTS ; OBS
 //
+//	OP    TA dt | TB name k | TE name k   (timed histories, see below)
 //	OP    H <opts> | U <opts> | UR <opts> | UB <opts> K e | UC <opts> | <opts> | SU e | SD e | P e b | X ctx | C
 //	      UR: an update whose DialFunc, for endpoints whose server is up, returns the new
 //	      ClientConn only when it is READY (like grpc.WithBlock()): the pool is READY when it
@@ -36,7 +37,18 @@
 //	      the pool of e is READY.
 //	      <opts> = default nmes {name N | name L r d k ep*k} F nf ep*nf
 //	OUTS  E code D n {ep ok}*n R call W ms
-//	OBS   M n {name cur k {id prio st}*k} Q n {ep id open ready} DEF d RT n {ctx P | ctx ep id open} O n id*n G census
+//	OBS   M n {name cur k {id prio st tmr}*k} Q n {ep id open ready} DEF d RT n {ctx P | ctx ep id open} O n id*n G census
+//
+// Timed histories (MultiEndpoints with non-zero RecoveryTimeout / SwitchingDelay): the clock and
+// the timer factory of package multiendpoint are replaced (harness/gme_me/zz_verif_clock.go,
+// added to that package by the overlay) by a virtual clock and timers that fire only when the
+// history says so: TA dt advances the clock, TB name k lets the runtime fire timer k of
+// MultiEndpoint `name` (Stop() returns false from then on), TE name k runs its callback.  A
+// timer is attributed to the MultiEndpoint whose lock its creator holds (probed with TryRLock)
+// or, for timers created inside NewMultiEndpoint, to the MultiEndpoint whose endpoint refers to
+// it; k counts the timers of one MultiEndpoint in creation order; `tmr` of an endpoint row is the
+// index of its futureChange timer (-1 none).  Timed histories are generated online under a
+// policy that keeps them deterministic (see vgGenTimed).
 package grpcgcp
 
 import (
@@ -168,8 +180,10 @@ func (o vgOp) String() string {
 		return fmt.Sprintf("UB %s K %d", o.opts.String(), o.e)
 	case "UC":
 		return fmt.Sprintf("UC %s | %s", o.opts.String(), o.opt2.String())
-	case "SU", "SD":
+	case "SU", "SD", "TA":
 		return fmt.Sprintf("%s %d", o.kind, o.e)
+	case "TB", "TE":
+		return fmt.Sprintf("%s %d %d", o.kind, o.e, o.b)
 	case "P":
 		return fmt.Sprintf("P %d %d", o.e, o.b)
 	case "X":
@@ -293,12 +307,22 @@ func vgParseOp(line string) (vgOp, bool, error) {
 		}
 		e, err := strconv.Atoi(t[len(t)-1])
 		return vgOp{kind: "UB", opts: o, e: e}, true, err
-	case "SU", "SD":
+	case "SU", "SD", "TA":
 		if len(t) != 2 {
 			return vgOp{}, false, errors.New("bad op: " + line)
 		}
 		e, err := strconv.Atoi(t[1])
 		return vgOp{kind: t[0], e: e}, true, err
+	case "TB", "TE":
+		if len(t) != 3 {
+			return vgOp{}, false, errors.New("bad op: " + line)
+		}
+		e, err := strconv.Atoi(t[1])
+		if err != nil {
+			return vgOp{}, false, err
+		}
+		k, err := strconv.Atoi(t[2])
+		return vgOp{kind: t[0], e: e, b: k}, true, err
 	case "P":
 		return vgOp{}, false, nil // written by the harness itself; regenerated on replay
 	case "X":
@@ -381,15 +405,212 @@ func vgGid() int64 {
 
 var vgDialErr = errors.New("vg: injected dial failure")
 
-func vgContextDialer(ctx context.Context, addr string) (net.Conn, error) {
+// timed histories: a connection attempt to an endpoint that is down does not fail, it hangs
+// until the endpoint comes up (no background CONNECTING/TRANSIENT_FAILURE cycling of the pools,
+// whose reports would re-run maybeUpdateCurrent at arbitrary moments)
+var (
+	vgTimed bool
+	vgWake  = make(chan struct{})
+)
+
+func vgWakeDialers() {
 	vgMu.Lock()
-	l := vgLis[addr]
-	ok := vgUp[addr] && vgAdmit[addr] && l != nil
+	close(vgWake)
+	vgWake = make(chan struct{})
 	vgMu.Unlock()
-	if !ok {
-		return nil, errors.New("vg: endpoint down")
+}
+
+func vgContextDialer(ctx context.Context, addr string) (net.Conn, error) {
+	for {
+		vgMu.Lock()
+		l := vgLis[addr]
+		ok := vgUp[addr] && vgAdmit[addr] && l != nil
+		timed := vgTimed
+		wake := vgWake
+		vgMu.Unlock()
+		if ok {
+			return l.DialContext(ctx)
+		}
+		if !timed {
+			return nil, errors.New("vg: endpoint down")
+		}
+		select {
+		case <-ctx.Done():
+			return nil, ctx.Err()
+		case <-wake:
+		}
 	}
-	return l.DialContext(ctx)
+}
+
+// ---------------------------------------------------------------- virtual clock and timers
+type vgTimer struct {
+	due   int64
+	f     func()
+	st    int     // 0 pending, 1 stopped, 2 firing, 3 done
+	owner uintptr // the *multiEndpoint it belongs to; 0: not known yet
+}
+
+var vgClk struct {
+	mu      sync.Mutex
+	now     int64
+	timers  []*vgTimer // creation order
+	byPtr   map[uintptr]*vgTimer
+	cur     *vgRun
+	attrErr int // timers whose MultiEndpoint could not be determined
+}
+
+var vgBase = time.Unix(1000000000, 0)
+
+func (t *vgTimer) Stop() bool {
+	vgClk.mu.Lock()
+	defer vgClk.mu.Unlock()
+	was := t.st == 0
+	if was {
+		t.st = 1
+	}
+	return was
+}
+
+func (t *vgTimer) Reset(d time.Duration) bool { return false }
+
+func vgNow() time.Time {
+	vgMu.Lock()
+	timed := vgTimed
+	vgMu.Unlock()
+	if !timed {
+		return time.Now()
+	}
+	vgClk.mu.Lock()
+	defer vgClk.mu.Unlock()
+	return vgBase.Add(time.Duration(vgClk.now))
+}
+
+func vgMEPtr(me multiendpoint.MultiEndpoint) uintptr {
+	v := reflect.ValueOf(me)
+	if !v.IsValid() || v.Kind() != reflect.Ptr || v.IsNil() {
+		return 0
+	}
+	return v.Pointer()
+}
+
+// the MultiEndpoint whose write lock is held right now (by the goroutine creating a timer)
+func vgLockedME(r *vgRun) (owner uintptr, ambiguous bool) {
+	if r == nil || r.gme == nil {
+		return 0, false
+	}
+	for try := 0; try < 200; try++ {
+		n := 0
+		owner = 0
+		for _, me := range r.gme.mes {
+			l, ok := me.(interface {
+				TryRLock() bool
+				RUnlock()
+			})
+			if !ok {
+				continue
+			}
+			if l.TryRLock() {
+				l.RUnlock()
+			} else {
+				n++
+				owner = vgMEPtr(me)
+			}
+		}
+		if n <= 1 {
+			return owner, false
+		}
+		runtime.Gosched()
+	}
+	return 0, true
+}
+
+func vgAfter(d time.Duration, f func()) multiendpoint.VerifTimer {
+	vgMu.Lock()
+	timed := vgTimed
+	vgMu.Unlock()
+	if !timed {
+		return time.AfterFunc(d, f)
+	}
+	vgClk.mu.Lock()
+	r := vgClk.cur
+	vgClk.mu.Unlock()
+	owner, amb := vgLockedME(r)
+	t := &vgTimer{f: f, owner: owner}
+	vgClk.mu.Lock()
+	if amb {
+		vgClk.attrErr++
+	}
+	t.due = vgClk.now + int64(d)
+	vgClk.timers = append(vgClk.timers, t)
+	vgClk.byPtr[reflect.ValueOf(t).Pointer()] = t
+	vgClk.mu.Unlock()
+	return t
+}
+
+// timers created inside NewMultiEndpoint (the new MultiEndpoint is not registered yet): find
+// the endpoint that refers to them
+func (r *vgRun) resolveTimers() {
+	if r.gme == nil {
+		return
+	}
+	vgClk.mu.Lock()
+	pending := false
+	for _, t := range vgClk.timers {
+		if t.owner == 0 {
+			pending = true
+		}
+	}
+	vgClk.mu.Unlock()
+	if !pending {
+		return
+	}
+	for _, me := range r.gme.mes {
+		_, rows := vgReadME(me)
+		vgClk.mu.Lock()
+		for _, x := range rows {
+			if t := vgClk.byPtr[x.tmrPtr]; t != nil && t.owner == 0 {
+				t.owner = vgMEPtr(me)
+			}
+		}
+		vgClk.mu.Unlock()
+	}
+	vgClk.mu.Lock()
+	for _, t := range vgClk.timers {
+		if t.owner == 0 {
+			t.owner = ^uintptr(0)
+			vgClk.attrErr++
+		}
+	}
+	vgClk.mu.Unlock()
+}
+
+// the timers of one MultiEndpoint, in creation order (call with vgClk.mu held)
+func vgTimersOf(owner uintptr) []*vgTimer {
+	var out []*vgTimer
+	for _, t := range vgClk.timers {
+		if t.owner == owner {
+			out = append(out, t)
+		}
+	}
+	return out
+}
+
+func vgTimerIndex(ptr uintptr) int {
+	if ptr == 0 {
+		return -1
+	}
+	vgClk.mu.Lock()
+	defer vgClk.mu.Unlock()
+	t := vgClk.byPtr[ptr]
+	if t == nil {
+		return -2
+	}
+	for i, x := range vgTimersOf(t.owner) {
+		if x == t {
+			return i
+		}
+	}
+	return -2
 }
 
 func vgStartServer(ep string) {
@@ -410,6 +631,7 @@ func vgStartServer(ep string) {
 	vgUp[ep] = true
 	vgMu.Unlock()
 	go s.Serve(l)
+	vgWakeDialers()
 }
 
 func vgStopServer(ep string) {
@@ -559,6 +781,19 @@ func (r *vgRun) dialFunc(ctx context.Context, target string, dopts ...grpc.DialO
 }
 
 func vgDialOptions() []grpc.DialOption {
+	vgMu.Lock()
+	timed := vgTimed
+	vgMu.Unlock()
+	if timed {
+		return []grpc.DialOption{
+			grpc.WithTransportCredentials(insecure.NewCredentials()),
+			grpc.WithContextDialer(vgContextDialer),
+			grpc.WithConnectParams(grpc.ConnectParams{
+				Backoff:           backoff.Config{BaseDelay: 20 * time.Millisecond, Multiplier: 1.2, Jitter: 0, MaxDelay: 100 * time.Millisecond},
+				MinConnectTimeout: time.Hour,
+			}),
+		}
+	}
 	return []grpc.DialOption{
 		grpc.WithTransportCredentials(insecure.NewCredentials()),
 		grpc.WithContextDialer(vgContextDialer),
@@ -604,6 +839,7 @@ func vgErrCode(err error) int {
 
 type vgRow struct {
 	id, prio, st int
+	tmrPtr       uintptr // the futureChange timer object (0: nil)
 }
 
 func vgReadME(me multiendpoint.MultiEndpoint) (cur int, rows []vgRow) {
@@ -630,7 +866,13 @@ func vgReadME(me multiendpoint.MultiEndpoint) (cur int, rows []vgRow) {
 		if e.FieldByName("id").String() != it.Key().String() {
 			id = -3
 		}
-		rows = append(rows, vgRow{id, int(e.FieldByName("priority").Int()), int(e.FieldByName("status").Int())})
+		var tp uintptr
+		if fc := e.FieldByName("futureChange"); fc.IsValid() && !fc.IsNil() {
+			if c := fc.Elem(); c.Kind() == reflect.Ptr {
+				tp = c.Pointer()
+			}
+		}
+		rows = append(rows, vgRow{id, int(e.FieldByName("priority").Int()), int(e.FieldByName("status").Int()), tp})
 	}
 	sort.Slice(rows, func(i, j int) bool { return rows[i].id < rows[j].id })
 	return cur, rows
@@ -697,6 +939,7 @@ func (r *vgRun) observe() string {
 	if r.gme == nil {
 		fmt.Fprintf(&sb, "M 0 Q 0 DEF %d", r.def)
 	} else {
+		r.resolveTimers()
 		g := r.gme
 		g.mu.Lock()
 		var names []string
@@ -709,7 +952,7 @@ func (r *vgRun) observe() string {
 			cur, rows := vgReadME(g.mes[n])
 			fmt.Fprintf(&sb, " %d %d %d", vgMEID(n), cur, len(rows))
 			for _, x := range rows {
-				fmt.Fprintf(&sb, " %d %d %d", x.id, x.prio, x.st)
+				fmt.Fprintf(&sb, " %d %d %d %d", x.id, x.prio, x.st, vgTimerIndex(x.tmrPtr))
 			}
 		}
 		var eps []string
@@ -820,6 +1063,7 @@ func (r *vgRun) admit(ep string) {
 	vgMu.Lock()
 	vgAdmit[ep] = true
 	vgMu.Unlock()
+	vgWakeDialers()
 	mc.conn.ResetConnectBackoff()
 	mc.conn.Connect()
 	r.waitReady(ep, true)
@@ -1101,90 +1345,185 @@ func (r *vgRun) call(c int) (res int) {
 	return vgEPID(vgGot[len(vgGot)-1])
 }
 
-func (r *vgRun) runHistory(h []vgOp) {
+func vgIsTimed(h []vgOp) bool {
+	for _, o := range h {
+		switch o.kind {
+		case "TA", "TB", "TE":
+			return true
+		}
+		for _, op := range []*vgOpts{o.opts, o.opt2} {
+			if op != nil {
+				for _, m := range op.mes {
+					if m.r != 0 || m.d != 0 {
+						return true
+					}
+				}
+			}
+		}
+	}
+	return false
+}
+
+func (r *vgRun) begin(timed bool) {
 	vgMu.Lock()
 	vgUp = map[string]bool{}
 	vgAdmit = map[string]bool{}
+	vgTimed = timed
 	vgMu.Unlock()
+	vgClk.mu.Lock()
+	vgClk.now = 0
+	vgClk.timers = nil
+	vgClk.byPtr = map[uintptr]*vgTimer{}
+	vgClk.cur = r
+	vgClk.mu.Unlock()
 	r.gme, r.closed, r.dials, r.outD, r.waited = nil, false, nil, nil, 0
 	r.base = vgCensus()
+}
+
+func (r *vgRun) runHistory(h []vgOp) {
+	r.begin(vgIsTimed(h))
 	defer r.cleanup()
 	for i, o := range h {
-		switch o.kind {
-		case "H":
-			if i != 0 {
-				return
-			}
-			code, dials := r.update(o)
-			r.outD = dials
-			r.emit(o, code, 0)
-			if r.gme == nil {
-				return
-			}
-			r.admitNew()
-		case "U":
-			if r.gme == nil {
-				return
-			}
-			code, dials := r.update(o)
-			r.outD = dials
-			r.emit(o, code, 0)
-			r.admitNew()
-		case "UR":
-			if r.gme == nil || r.closed {
-				return
-			}
-			r.updateReady(o)
-		case "UB":
-			if r.gme == nil || r.closed {
-				return
-			}
-			r.updateBlocked(o)
-		case "UC":
-			if r.gme == nil || r.closed {
-				return
-			}
-			r.updateConcurrent(o)
-		case "SU":
-			ep := vgEPName(o.e)
-			r.emit(o, 0, 0)
-			vgMu.Lock()
-			up := vgUp[ep]
-			vgMu.Unlock()
-			if !up {
-				vgStartServer(ep)
-				r.admit(ep)
-			}
-		case "SD":
-			ep := vgEPName(o.e)
-			r.emit(o, 0, 0)
-			vgMu.Lock()
-			up := vgUp[ep]
-			vgMu.Unlock()
-			if up {
-				mc := r.poolOpen(ep)
-				wasReady := mc != nil && mc.conn.GetState() == connectivity.Ready
-				vgStopServer(ep)
-				if wasReady {
-					r.waitReady(ep, false)
-					r.emit(vgOp{kind: "P", e: o.e, b: 0}, 0, 0)
-				}
-			}
-		case "X":
-			if r.gme == nil {
-				return
-			}
-			res := r.call(o.e)
-			r.emit(o, 0, res)
-		case "C":
-			if r.gme == nil {
-				return
-			}
-			r.gme.Close()
-			r.closed = true
-			r.emit(o, 0, 0)
+		if !r.runOp(i, o) {
+			return
 		}
 	}
+}
+
+// the timer k (creation order) of the MultiEndpoint called name, or nil
+func (r *vgRun) timerOf(name, k int) *vgTimer {
+	if r.gme == nil {
+		return nil
+	}
+	r.resolveTimers()
+	me, ok := r.gme.mes[vgMEName(name)]
+	if !ok {
+		return nil
+	}
+	vgClk.mu.Lock()
+	defer vgClk.mu.Unlock()
+	ts := vgTimersOf(vgMEPtr(me))
+	if k < 0 || k >= len(ts) {
+		return nil
+	}
+	return ts[k]
+}
+
+// runs one operation; false: the history ends here
+func (r *vgRun) runOp(i int, o vgOp) bool {
+	switch o.kind {
+	case "H":
+		if i != 0 {
+			return false
+		}
+		code, dials := r.update(o)
+		r.outD = dials
+		r.emit(o, code, 0)
+		if r.gme == nil {
+			return false
+		}
+		r.admitNew()
+	case "U":
+		if r.gme == nil {
+			return false
+		}
+		code, dials := r.update(o)
+		r.outD = dials
+		r.emit(o, code, 0)
+		r.admitNew()
+	case "UR":
+		if r.gme == nil || r.closed {
+			return false
+		}
+		r.updateReady(o)
+	case "UB":
+		if r.gme == nil || r.closed {
+			return false
+		}
+		r.updateBlocked(o)
+	case "UC":
+		if r.gme == nil || r.closed {
+			return false
+		}
+		r.updateConcurrent(o)
+	case "TA": // the virtual clock advances
+		if r.gme == nil {
+			return false
+		}
+		if o.e >= 0 {
+			vgClk.mu.Lock()
+			vgClk.now += int64(o.e)
+			vgClk.mu.Unlock()
+		}
+		r.emit(o, 0, 0)
+	case "TB": // the runtime fires a due timer: Stop() returns false from now on
+		if r.gme == nil {
+			return false
+		}
+		if t := r.timerOf(o.e, o.b); t != nil {
+			vgClk.mu.Lock()
+			if t.st == 0 && t.due <= vgClk.now {
+				t.st = 2
+			}
+			vgClk.mu.Unlock()
+		}
+		r.emit(o, 0, 0)
+	case "TE": // ... and its callback runs
+		if r.gme == nil {
+			return false
+		}
+		if t := r.timerOf(o.e, o.b); t != nil {
+			vgClk.mu.Lock()
+			run := t.st == 2
+			if run {
+				t.st = 3
+			}
+			vgClk.mu.Unlock()
+			if run {
+				t.f()
+			}
+		}
+		r.emit(o, 0, 0)
+	case "SU":
+		ep := vgEPName(o.e)
+		r.emit(o, 0, 0)
+		vgMu.Lock()
+		up := vgUp[ep]
+		vgMu.Unlock()
+		if !up {
+			vgStartServer(ep)
+			r.admit(ep)
+		}
+	case "SD":
+		ep := vgEPName(o.e)
+		r.emit(o, 0, 0)
+		vgMu.Lock()
+		up := vgUp[ep]
+		vgMu.Unlock()
+		if up {
+			mc := r.poolOpen(ep)
+			wasReady := mc != nil && mc.conn.GetState() == connectivity.Ready
+			vgStopServer(ep)
+			if wasReady {
+				r.waitReady(ep, false)
+				r.emit(vgOp{kind: "P", e: o.e, b: 0}, 0, 0)
+			}
+		}
+	case "X":
+		if r.gme == nil {
+			return false
+		}
+		res := r.call(o.e)
+		r.emit(o, 0, res)
+	case "C":
+		if r.gme == nil {
+			return false
+		}
+		r.gme.Close()
+		r.closed = true
+		r.emit(o, 0, 0)
+	}
+	return true
 }
 
 func (r *vgRun) cleanup() {
@@ -1208,6 +1547,7 @@ func (r *vgRun) cleanup() {
 	for _, e := range eps {
 		vgStopServer(e)
 	}
+	vgWakeDialers()
 	r.gme = nil
 	// let the cancelled monitors exit, so that the next history starts from a stable census
 	deadline := time.Now().Add(250 * time.Millisecond)
@@ -1637,6 +1977,226 @@ func vgGenConcScenario(g *vgRng) []vgOp {
 	return h
 }
 
+// ---------------------------------------------------------------- timed histories (online generator)
+type vgTK struct{ name, k int }
+
+// pending-and-due timers, firing timers and the next due time of the registered MultiEndpoints;
+// blocked: some pending/firing timer is not the futureChange of an endpoint (a delayed switch,
+// or the recovery timer of a removed endpoint)
+func (r *vgRun) timerState() (due, firing []vgTK, blocked bool, next int64) {
+	next = -1
+	if r.gme == nil {
+		return
+	}
+	r.resolveTimers()
+	var names []string
+	for n := range r.gme.mes {
+		names = append(names, n)
+	}
+	sort.Strings(names)
+	for _, n := range names {
+		me := r.gme.mes[n]
+		_, rows := vgReadME(me)
+		ref := map[uintptr]bool{}
+		for _, x := range rows {
+			ref[x.tmrPtr] = true
+		}
+		vgClk.mu.Lock()
+		for k, t := range vgTimersOf(vgMEPtr(me)) {
+			if t.st != 0 && t.st != 2 {
+				continue
+			}
+			if !ref[reflect.ValueOf(t).Pointer()] {
+				blocked = true
+			}
+			if t.st == 2 {
+				firing = append(firing, vgTK{vgMEID(n), k})
+			} else {
+				if t.due <= vgClk.now {
+					due = append(due, vgTK{vgMEID(n), k})
+				}
+				if next < 0 || t.due < next {
+					next = t.due
+				}
+			}
+		}
+		vgClk.mu.Unlock()
+	}
+	return
+}
+
+var vgDurs = []int64{0, 5, 10, 20}
+
+// a reconfiguration that cannot make the status-sync loop order-dependent: endpoints are removed,
+// endpoints whose server is DOWN are inserted, MultiEndpoints are removed or added (over down
+// endpoints); the relative order of the kept endpoints is not changed
+func vgTimedEdit(g *vgRng, prev *vgOpts, up map[int]bool, nEP int) *vgOpts {
+	o := vgCopyOpts(prev)
+	var downs []int
+	for e := 1; e <= nEP; e++ {
+		if !up[e] {
+			downs = append(downs, e)
+		}
+	}
+	if len(o.mes) > 1 && g.pct(25) {
+		k := g.intn(len(o.mes))
+		o.mes = append(o.mes[:k], o.mes[k+1:]...)
+	}
+	for i := range o.mes {
+		m := &o.mes[i]
+		if len(m.eps) > 1 && g.pct(30) {
+			k := g.intn(len(m.eps))
+			m.eps = append(m.eps[:k], m.eps[k+1:]...)
+		}
+		if len(downs) > 0 && g.pct(40) {
+			f := downs[g.intn(len(downs))]
+			has := false
+			for _, e := range m.eps {
+				if e == f {
+					has = true
+				}
+			}
+			if !has {
+				k := g.intn(len(m.eps) + 1)
+				eps := append([]int{}, m.eps[:k]...)
+				eps = append(eps, f)
+				m.eps = append(eps, m.eps[k:]...)
+			}
+		}
+	}
+	if len(o.mes) < 4 && len(downs) > 0 && g.pct(30) {
+		used := map[int]bool{}
+		for _, m := range o.mes {
+			used[m.name] = true
+		}
+		n := g.intn(5)
+		for used[n] {
+			n = (n + 1) % 5
+		}
+		eps := []int{downs[g.intn(len(downs))]}
+		if f := downs[g.intn(len(downs))]; f != eps[0] {
+			eps = append(eps, f)
+		}
+		o.mes = append(o.mes, vgME{name: n, eps: eps, r: vgDurs[g.intn(4)], d: vgDurs[g.intn(4)]})
+	}
+	keep := false
+	for _, m := range o.mes {
+		if m.name == prev.def && g.pct(60) {
+			keep = true
+		}
+	}
+	if !keep {
+		o.def = o.mes[g.intn(len(o.mes))].name
+	}
+	return o
+}
+
+// Online generator of a timed history.  Policy (keeps the history deterministic although Go
+// iterates maps in random order and monitors report asynchronously):
+//   - connection attempts to endpoints that are down hang (no background state changes);
+//   - while a delayed switch is pending or firing, only clock/timer operations are issued (every
+//     availability report re-runs maybeUpdateCurrent, which would schedule one more switch timer
+//     per report: their number depends on how many state changes a monitor happens to see);
+//   - updates never tell a MultiEndpoint anything new in the status-sync loop (vgTimedEdit) and
+//     never fail; connectivity changes one endpoint at a time (P lines).
+func (r *vgRun) genTimed(g *vgRng, maxOps int) {
+	r.begin(true)
+	defer r.cleanup()
+	nEP := 4 + g.intn(2)
+	up := map[int]bool{}
+	first := &vgOpts{}
+	for _, n := range vgPickDistinct(g, 1+g.intn(3), 5) {
+		first.mes = append(first.mes, vgME{name: n - 1, eps: vgPickDistinct(g, 1+g.intn(3), nEP),
+			r: vgDurs[g.intn(4)], d: vgDurs[g.intn(4)]})
+	}
+	if first.mes[0].r == 0 && first.mes[0].d == 0 {
+		first.mes[0].r = vgDurs[1+g.intn(3)]
+	}
+	first.def = first.mes[g.intn(len(first.mes))].name
+	if !r.runOp(0, vgOp{kind: "H", opts: first}) {
+		return
+	}
+	prev := first
+	n := 4 + g.intn(maxOps)
+	for i := 1; i <= n; i++ {
+		due, firing, blocked, next := r.timerState()
+		vgClk.mu.Lock()
+		now := vgClk.now
+		vgClk.mu.Unlock()
+		var ups, downs []int
+		for e := 1; e <= nEP; e++ {
+			if up[e] {
+				ups = append(ups, e)
+			} else {
+				downs = append(downs, e)
+			}
+		}
+		toNext := vgOp{kind: "TA", e: 5}
+		if next > now {
+			toNext = vgOp{kind: "TA", e: int(next - now)}
+		}
+		var o vgOp
+		x := g.intn(100)
+		switch {
+		case blocked && len(firing) > 0 && (len(due) == 0 || g.pct(60)):
+			t := firing[g.intn(len(firing))]
+			o = vgOp{kind: "TE", e: t.name, b: t.k}
+		case blocked && len(due) > 0:
+			t := due[g.intn(len(due))]
+			o = vgOp{kind: "TB", e: t.name, b: t.k}
+		case blocked:
+			o = toNext
+		case x < 18 && len(downs) > 1 && len(ups) < 3:
+			e := downs[g.intn(len(downs))]
+			up[e] = true
+			o = vgOp{kind: "SU", e: e}
+		case x < 27 && len(ups) > 0:
+			e := ups[g.intn(len(ups))]
+			delete(up, e)
+			o = vgOp{kind: "SD", e: e}
+		case x < 42:
+			nx := vgTimedEdit(g, prev, up, nEP)
+			o = vgOp{kind: "U", opts: nx}
+			prev = nx
+		case x < 55:
+			if g.pct(60) {
+				o = toNext
+			} else {
+				o = vgOp{kind: "TA", e: []int{1, 3, 5, 10}[g.intn(4)]}
+			}
+		case x < 72 && len(due) > 0:
+			t := due[g.intn(len(due))]
+			o = vgOp{kind: "TB", e: t.name, b: t.k}
+		case x < 88 && len(firing) > 0:
+			t := firing[g.intn(len(firing))]
+			o = vgOp{kind: "TE", e: t.name, b: t.k}
+		case x < 95:
+			c := vgProbes[g.intn(len(vgProbes))]
+			ready := func() (ok bool) {
+				defer func() {
+					if recover() != nil {
+						ok = false
+					}
+				}()
+				return r.gme.pickConn(vgCtx(c)).GetState() == connectivity.Ready
+			}()
+			if ready {
+				o = vgOp{kind: "X", e: c}
+			} else {
+				o = toNext
+			}
+		default:
+			o = toNext
+		}
+		if !r.runOp(i, o) {
+			return
+		}
+	}
+	if g.pct(70) {
+		r.runOp(n+1, vgOp{kind: "C"})
+	}
+}
+
 func vgEnvInt(name string, def int) int {
 	if v := os.Getenv(name); v != "" {
 		if n, err := strconv.Atoi(v); err == nil {
@@ -1652,6 +2212,8 @@ func TestVerifGME(t *testing.T) {
 		t.Skip("VERIF_OUT not set")
 	}
 	grpclog.SetLoggerV2(grpclog.NewLoggerV2(ioutil.Discard, ioutil.Discard, ioutil.Discard))
+	vgClk.byPtr = map[uintptr]*vgTimer{}
+	defer multiendpoint.VerifInstallClock(vgNow, vgAfter)()
 	f, err := os.Create(out)
 	if err != nil {
 		t.Fatal(err)
@@ -1689,6 +2251,10 @@ func TestVerifGME(t *testing.T) {
 	for i := 0; i < nflap; i++ {
 		r.runHistory(vgGenFlapScenario(g))
 	}
+	ntimed := vgEnvInt("VERIF_TIMED", 0)
+	for i := 0; i < ntimed; i++ {
+		r.genTimed(g, vgEnvInt("VERIF_TMAXOPS", 14))
+	}
 	nready := vgEnvInt("VERIF_READY", 0)
 	for i := 0; i < nready; i++ {
 		r.runHistory(vgGenReadyScenario(g))
@@ -1701,4 +2267,7 @@ func TestVerifGME(t *testing.T) {
 		r.runHistory(vgGenHistory(g, maxOps, live))
 	}
 	fmt.Fprintf(os.Stderr, "gme harness: %d lines in %v\n", r.nlines, time.Since(t0))
+	if vgClk.attrErr > 0 {
+		t.Errorf("timer attribution failed for %d timers", vgClk.attrErr)
+	}
 }
